@@ -15,8 +15,10 @@
    Everything that the translator regenerates from the source is a field of [cfg]; the theorems are about
    [std_cfg] and tie/T_Validate.v proves the regenerated configuration equal to it.
 
-   Not modelled (assumptions of the check): IPC framing errors (C05), external-location / shared-memory
-   resolution of the request batch, the protocol-version gate (C09; the services declare none), ctx injection,
+   Shared-memory routed requests (socket path): q_cols is the resolved batch, q_inline the pointer batch's schema;
+   HTTP never resolves shm pointers, there q_inline is not looked at.
+   Not modelled (assumptions of the check): IPC framing errors (C05), external-location resolution of the request
+   batch, dictionary-encoded columns inside shm-routed requests, the protocol-version gate (C09; the services declare none), ctx injection,
    response-size caps, result validation.  Arrow DataType equality is a primitive: a type is a tag, equal tags
    iff pyarrow's `==`.  What a value converts to (enum member known, dataclass blob parses, dict()/frozenset()
    succeed) is an attribute of the cell measured on the real value. *)
@@ -81,8 +83,11 @@ Inductive vkey := VAbsent | VWrong | VOk.
 Record request := {
   q_method : mkey;                 (* vgi_rpc.method *)
   q_version : vkey;                (* vgi_rpc.request_version *)
-  q_cols : list (field * cell);    (* request batch schema, with row 0 of each column *)
-  q_rows : N
+  q_cols : list (field * cell);    (* the batch the kwargs are decoded from (the resolved batch when the request
+                                      was routed through shared memory), with row 0 of each column *)
+  q_rows : N;
+  q_inline : option (list field)   (* socket path, request routed through the shared-memory side channel: the schema
+                                      of the inline 0-row pointer batch; None for an ordinary inline request *)
 }.
 
 Inductive behaviour := BOk | BRaise (e : exn).
@@ -102,6 +107,7 @@ Record cfg := {
   c_dbranches : list dbranch;      (* _deserialize_value, branch order *)
   c_conv : list N;                 (* classes re-raised as TypeError around _deserialize_params (HTTP) *)
   c_400 : list N;                  (* classes answered 400 (HTTP) *)
+  c_schema_resolved : bool;        (* _decode_request records the request schema after pointer resolution *)
   c_other_status : N;              (* status of the catch-all handler and of a method error *)
   c_marker_status : N              (* _set_http_status: this status is sent as 200 + X-VGI-RPC-Error *)
 }.
@@ -114,6 +120,7 @@ Definition std_cfg : cfg := {|
   c_dbranches := [DDataclass; DEnum; DDict; DFrozenset];
   c_conv := [cKeyError; cValueError];
   c_400 := [cArrowInvalid; cOSError; cTypeError; cStopIteration; cRpcError; cVersionError];
+  c_schema_resolved := true;
   c_other_status := 500;
   c_marker_status := 500
 |}.
@@ -302,6 +309,13 @@ Definition transport_options : str :=
 
 Definition impl_t := str -> list (str * cell) -> behaviour.
 
+(* the schema _validate_call_signature compares with the declaration (_current_request_param_schema) *)
+Definition sig_schema (c : cfg) (q : request) : list field :=
+  match q_inline q with
+  | Some ptr => if c_schema_resolved c then map fst (q_cols q) else ptr
+  | None => map fst (q_cols q)
+  end.
+
 (* ---- RpcServer.serve_one ---- *)
 Definition sock_reject (e : exn) (r : reason) : outcome :=
   {| o_invoked := false; o_status := 0; o_marker := false; o_err := Some (ecls e); o_reason := r |}.
@@ -316,7 +330,7 @@ Definition serve_one (c : cfg) (ms : list minfo) (impl : impl_t) (q : request) :
         match find_method name ms with
         | None => sock_reject not_implemented RUnknownMethod
         | Some mi =>
-            match run_stages c false mi kw (map fst (q_cols q)) (c_order_sock c) with
+            match run_stages c false mi kw (sig_schema c q) (c_order_sock c) with
             | Some (e, r) => sock_reject e r
             | None =>
                 match impl name kw with
